@@ -12,6 +12,7 @@ import (
 	"sort"
 	"strconv"
 	"strings"
+	"sync"
 
 	"github.com/alicebob/miniredis/v2"
 	"github.com/kwertop/gostatix"
@@ -487,3 +488,29 @@ func writeJSON(path string, v interface{}) error {
 }
 
 func newRng(seed int64) *rand.Rand { return rand.New(rand.NewSource(seed)) }
+
+// ---- caller-owned argument buffers -------------------------------------------------------------
+// A caller may reuse one buffer for successive elements (binary.PutUint64(buf, i); h.Update(buf)) and
+// may overwrite it as soon as the call returns.  The handle wrappers pass every element through
+// `viaScratch`: the bytes live in a recycled backing array (a sync.Pool: the same array for
+// successive calls of one goroutine, never shared between two running calls) and are scribbled
+// over after the call, so an implementation that keeps a reference to its argument (a "last
+// element" cache, a stored key) is exposed.
+var scratchPool = sync.Pool{New: func() interface{} { b := make([]byte, 512); return &b }}
+
+func viaScratch(d []byte, call func(arg []byte)) {
+	if len(d) == 0 || len(d) > 512 {
+		call(d)
+		return
+	}
+	bp := scratchPool.Get().(*[]byte)
+	buf := *bp
+	n := copy(buf, d)
+	defer func() {
+		for i := 0; i < n; i++ {
+			buf[i] ^= 0xA5
+		}
+		scratchPool.Put(bp)
+	}()
+	call(buf[:n:n])
+}
